@@ -150,3 +150,56 @@ Definition dh_network_cost (d : dh_in) : Q :=
 (* district O&M when not supplied: 1 % of the network cost + 2 % of the heat demand priced at the electricity rate *)
 Definition dh_oam (provided : bool) (supplied network_cost demand_sum elec_rate : Q) : Q :=
   if provided then supplied else (1 # 100) * network_cost + (2 # 100) * demand_sum * elec_rate / 1000.
+
+(* ---- surface-plant capital cost (Economics.Calculate, "plant costs"): the power-plant cost CORRELATION (fractional
+   powers, logs) enters as the value the run computed; everything around it is modelled ---- *)
+Inductive pkind := PHeat | PChiller | PHeatPump | PDistrict | PPower.
+Record plant_in := {
+  p_kind : pkind; p_cogen : bool;                    (* PPower with a cogeneration end-use adds the direct-use part *)
+  p_fixed_valid : bool; p_fixed : Q; p_adj : Q;      (* Surface Plant Capital Cost / its Adjustment Factor *)
+  p_max_he : Q;                                      (* max(HeatExtracted) [MW] *)
+  p_eq_provided : bool; p_eq_in : Q;                 (* user-supplied chiller / heat-pump capital cost *)
+  p_max_eq : Q;                                      (* max(cooling_produced) resp. max(HeatProduced) [MW] *)
+  p_max_peaking : Q;                                 (* district heating: max peaking boiler demand [MW] *)
+  p_corr : Q;                                        (* Cplantcorrelation [M$] *)
+  p_max_hp_over_eff : Q;                             (* cogeneration: max(HeatProduced / end-use efficiency) [MW] *)
+  p_ratio_provided : bool; p_ratio_in : Q }.         (* CHP Electrical Plant Cost Allocation Ratio *)
+
+Definition q1288 : Q := q112 * q115.                 (* 12 % indirect costs, 15 % contingency *)
+(* $250/kWth direct-use equipment: 1.12*1.15*adj*250E-6*MW*1000 *)
+Definition direct_use_cost (adj mw : Q) : Q := q1288 * adj * (250 # 1000000) * mw * 1000.
+Definition equipment_cost (p : plant_in) : Q :=
+  match p_kind p with
+  | PChiller => if p_eq_provided p then p_eq_in p else q1288 * p_max_eq p * 1000 / (3517 # 1000) * 2500 / 1000000
+  | PHeatPump => if p_eq_provided p then p_eq_in p else q1288 * p_max_eq p * 1000 * 150 / 1000000
+  | PDistrict => 65 * p_max_peaking p / 1000
+  | _ => 0
+  end.
+Definition capex_elec_plant (p : plant_in) : Q :=
+  match p_kind p with
+  | PPower => if p_fixed_valid p then p_fixed p * p_ratio_in p else q1288 * p_adj p * p_corr p * (102 # 100) * (110 # 100)
+  | _ => 0
+  end.
+Definition capex_heat_plant (p : plant_in) : Q :=
+  match p_kind p with
+  | PPower => if p_fixed_valid p then p_fixed p * (1 - p_ratio_in p)
+              else if p_cogen p then direct_use_cost (p_adj p) (p_max_hp_over_eff p) else 0
+  | _ => 0
+  end.
+Definition plant_cost (p : plant_in) : Q :=
+  if p_fixed_valid p then p_fixed p
+  else match p_kind p with
+       | PPower => capex_elec_plant p + capex_heat_plant p
+       | _ => direct_use_cost (p_adj p) (p_max_he p) + equipment_cost p
+       end.
+Definition plant_ratio (p : plant_in) : Q :=
+  if p_fixed_valid p || p_ratio_provided p then p_ratio_in p else capex_elec_plant p / plant_cost p.
+
+Definition plant_agree (tol : Q) (p : plant_in) (iCplant iEq iElec iHeat iRatio : Q) : bool :=
+  close tol (plant_cost p) iCplant &&
+  (if p_fixed_valid p then true else close tol (equipment_cost p) iEq) &&
+  match p_kind p with
+  | PPower => close tol (capex_elec_plant p) iElec && close tol (capex_heat_plant p) iHeat &&
+              (Qeq_bool (plant_cost p) 0 || close_scale tol 1 (plant_ratio p) iRatio)
+  | _ => true
+  end.
